@@ -21,6 +21,18 @@
 //   massoc (18 bits)                (m1*m2)*m3 then m1*(m2*m3): 12 bit patterns
 //   mrt  a.. (6 bits) x y (bits)    transform(inverse(m), transform(m, p)): 2 bit patterns
 //   mgen k x y (bits)               k = t|s|r: get_translate / get_scale / get_rotate(x): 6 bit patterns
+//   mmuleq a.. b.. (12 bits)        m = a; m *= b (the COMPOUND operator): 6 bit patterns
+//   mself a.. (6 bits)              m = a; m *= m (argument aliases *this): 6 bit patterns
+//   mseq n M1.. Mn (6n bits)        m = matrix3x2<double>() (identity); m *= M1; ..; m *= Mn: 6 bit patterns, then the same chain ending in
+//                                   a self multiplication m *= m: 6 more bit patterns
+//   mpt a.. (6 bits) x y (bits)     point<double>(x,y) * m (operator*(point, matrix) itself): 2 bit patterns
+//   mpti a.. (6 bits) x y (ints)    point<ptrdiff_t>(x,y) * m and transform(m, point<ptrdiff_t>): 4 bit patterns
+//   mgenp k x y (bits)              k = t|s: get_translate / get_scale(point<double>(x,y)); k = u: get_scale(x): 6 bit patterns
+//   mcr w h (ints) rads (bits)      center_rotate(point<ptrdiff_t>(w,h), rads): 6 bit patterns
+//   iop k a.. b.. (12 ints)         matrix3x2<long>: k = m: a * b; k = e: m = a; m *= b; k = s: m = a; m *= m (b ignored): 6 integers
+//   resc vt s w h dw dh n M1..Mn    m = identity; m *= Mi/8 (6n integers: entries are k/8) for i = 1..n; resample_pixels(src, dst, m): dst dump `|` direct loop
+//                                   (every sample point lies on the 1/8^n grid: exact)
+//   resmf vt s w h dw dh n M1..Mn   the same with arbitrary double matrices (6n bit patterns): the 6 bit patterns of m, `|`, dst dump, `|`, direct loop
 //   F = f|d (point<float> / point<double>);  vt = g8 rgb8 rgb8p g16 g8s g32f sub (subsampled rgb8, step 2) trn (transposed g16)
 #include <boost/gil.hpp>
 #include <boost/gil/extension/numeric/sampler.hpp>
@@ -142,6 +154,19 @@ std::string res(ptrdiff_t w, ptrdiff_t h, ptrdiff_t dw, ptrdiff_t dh, double con
     using pixel_t = typename Src::pixel_t;
     using img_t = gil::image<pixel_t, false>;
     gil::matrix3x2<double> mat(m[0], m[1], m[2], m[3], m[4], m[5]);
+    img_t d1(dw, dh), d2(dw, dh);
+    gil::fill_pixels(gil::view(d1), sentinel<pixel_t>()); gil::fill_pixels(gil::view(d2), sentinel<pixel_t>());
+    gil::resample_pixels(s.v, gil::view(d1), mat, Sampler{});
+    auto v2 = gil::view(d2);
+    for (ptrdiff_t y = 0; y < dh; ++y) for (ptrdiff_t x = 0; x < dw; ++x)
+        gil::sample(Sampler{}, s.v, gil::transform(mat, gil::point_t(x, y)), v2(x, y));
+    return dump(gil::const_view(d1)) + " | " + dump(gil::const_view(d2));
+}
+template <typename Src, typename Sampler>
+std::string resm(ptrdiff_t w, ptrdiff_t h, ptrdiff_t dw, ptrdiff_t dh, gil::matrix3x2<double> const& mat) {
+    Src s(w, h);
+    using pixel_t = typename Src::pixel_t;
+    using img_t = gil::image<pixel_t, false>;
     img_t d1(dw, dh), d2(dw, dh);
     gil::fill_pixels(gil::view(d1), sentinel<pixel_t>()); gil::fill_pixels(gil::view(d2), sentinel<pixel_t>());
     gil::resample_pixels(s.v, gil::view(d1), mat, Sampler{});
@@ -317,6 +342,52 @@ static std::string handle_op(std::string const& line) {
             if (w[1] == "t") return show_m(gil::matrix3x2<double>::get_translate(d_of(w[2]), d_of(w[3])));
             if (w[1] == "s") return show_m(gil::matrix3x2<double>::get_scale(d_of(w[2]), d_of(w[3])));
             if (w[1] == "r") return show_m(gil::matrix3x2<double>::get_rotate(d_of(w[2])));
+        }
+        auto M = [&](size_t i) { return gil::matrix3x2<double>(d_of(w[i]), d_of(w[i + 1]), d_of(w[i + 2]), d_of(w[i + 3]), d_of(w[i + 4]), d_of(w[i + 5])); };
+        if (w.size() == 13 && w[0] == "mmuleq") { auto m = M(1); auto const n = M(7); m *= n; return show_m(m); }
+        if (w.size() == 7 && w[0] == "mself") { auto m = M(1); m *= m; return show_m(m); }
+        if (w.size() >= 2 && w[0] == "mseq" && w.size() == 2 + 6 * (size_t)I(1)) {
+            gil::matrix3x2<double> m;
+            for (long k = 0; k < I(1); ++k) m *= M(2 + 6 * (size_t)k);
+            std::string out = show_m(m);
+            m *= m;
+            return out + " " + show_m(m);
+        }
+        if (w.size() == 9 && w[0] == "mpt") {
+            auto p = gil::point<double>(d_of(w[7]), d_of(w[8])) * M(1);
+            return b_of(p.x) + " " + b_of(p.y);
+        }
+        if (w.size() == 9 && w[0] == "mpti") {
+            gil::point<double> p = gil::point<ptrdiff_t>(I(7), I(8)) * M(1);
+            gil::point<double> q = gil::transform(M(1), gil::point<ptrdiff_t>(I(7), I(8)));
+            return b_of(p.x) + " " + b_of(p.y) + " " + b_of(q.x) + " " + b_of(q.y);
+        }
+        if (w.size() == 4 && w[0] == "mgenp") {
+            if (w[1] == "t") return show_m(gil::matrix3x2<double>::get_translate(gil::point<double>(d_of(w[2]), d_of(w[3]))));
+            if (w[1] == "s") return show_m(gil::matrix3x2<double>::get_scale(gil::point<double>(d_of(w[2]), d_of(w[3]))));
+            if (w[1] == "u") return show_m(gil::matrix3x2<double>::get_scale(d_of(w[2])));
+        }
+        if (w.size() == 4 && w[0] == "mcr") return show_m(gil::center_rotate(gil::point<ptrdiff_t>(I(1), I(2)), d_of(w[3])));
+        if (w.size() == 14 && w[0] == "iop") {
+            gil::matrix3x2<long> a(I(2), I(3), I(4), I(5), I(6), I(7)), b(I(8), I(9), I(10), I(11), I(12), I(13)), r;
+            if (w[1] == "m") r = a * b;
+            else if (w[1] == "e") { r = a; r *= b; }
+            else if (w[1] == "s") { r = a; r *= r; }
+            else return "bad-op";
+            return std::to_string(r.a) + " " + std::to_string(r.b) + " " + std::to_string(r.c) + " " + std::to_string(r.d) + " " + std::to_string(r.e) + " " + std::to_string(r.f);
+        }
+        if (w.size() >= 8 && (w[0] == "resc" || w[0] == "resmf") && w.size() == 8 + 6 * (size_t)I(7)) {
+            gil::matrix3x2<double> m;                       // identity, then the compound operator only
+            for (long k = 0; k < I(7); ++k) {
+                size_t o = 8 + 6 * (size_t)k;
+                if (w[0] == "resc") m *= gil::matrix3x2<double>(I(o) / 8.0, I(o + 1) / 8.0, I(o + 2) / 8.0, I(o + 3) / 8.0, I(o + 4) / 8.0, I(o + 5) / 8.0);
+                else m *= M(o);
+            }
+            std::string pre = w[0] == "resmf" ? show_m(m) + " | " : std::string();
+#define X(name, S) if (w[1] == name) { if (w[2] == "b") return pre + resm<S, gil::bilinear_sampler>(I(3), I(4), I(5), I(6), m); \
+                                       return pre + resm<S, gil::nearest_neighbor_sampler>(I(3), I(4), I(5), I(6), m); }
+            SRCS(X)
+#undef X
         }
         return "bad-op";
     }
